@@ -30,6 +30,7 @@ type satCfg struct {
 	Current string
 	Random  bool
 	Ranges  bool
+	Mixed   bool // only the LAST criterion declares its valuesRange [-1,3]
 	ZVal    float64
 	Reverse bool
 }
@@ -39,7 +40,9 @@ func satRequest(cfg satCfg) M {
 	cids := critIDs(m)
 	var crits L
 	for j, id := range cids {
-		if cfg.Ranges {
+		if cfg.Mixed && j < len(cids)-1 {
+			crits = append(crits, crit(id, cfg.Types[j]))
+		} else if cfg.Ranges || cfg.Mixed {
 			crits = append(crits, critR(id, cfg.Types[j], -1, 3))
 		} else {
 			crits = append(crits, crit(id, cfg.Types[j]))
@@ -378,6 +381,11 @@ func satEnumerate(s *Shard, prop string, fn func(c *Case)) {
 							cfg.Vals, cfg.Ranges, cfg.ZVal = nv, false, -1.5
 						}
 						fn(&Case{Prop: prop, Kind: "satisfaction", Req: satRequest(cfg)})
+						if spec.Fn != "thresholds" && g.n <= 3 && (si+ci)%3 == 1 {
+							mc := cfg
+							mc.Mixed, mc.Ranges = true, false
+							fn(&Case{Prop: prop, Kind: "satisfaction", Req: satRequest(mc)})
+						}
 						if spec.Fn != "thresholds" && !cfg.Ranges && g.n <= 3 && cc != "zz" {
 							// the never-considered alternative that widens the observed range has an id that sorts FIRST
 							fn(&Case{Prop: prop, Kind: "satisfaction", Req: renameIDs(satRequest(cfg), map[string]string{"zz": "0a"})})
@@ -413,7 +421,7 @@ func satLong(s *Shard, prop string, fn func(c *Case)) {
 				if !s.Take() {
 					return
 				}
-				vals := [][]float64{{lv[idx[0]], 1}, {lv[idx[1]], 1}, {lv[idx[2]], 1}}
+				vals := [][]float64{{lv[idx[0]], 3}, {lv[idx[1]], 3}, {lv[idx[2]], 3}} // the second criterion never decides (everybody at its best value)
 				cfg := satCfg{N: 3, Vals: vals, Types: []string{typ, "gain"}, Spec: spec, ZVal: 3}
 				fn(&Case{Prop: prop, Kind: "satisfaction", Req: satRequest(cfg)})
 			})
